@@ -55,7 +55,7 @@ def check(model: Model, run: Run) -> None:
                 run.fail(Finding("V1-length-form-leniency", fi.qualname, norm(r)[:80] + "|" + ";".join(norm(c)[:40] for c in conds),
                                  f"{fi.name} rejects a header under `{' and '.join(norm(c)[:50] for c in conds) or 'always'}`: the only legitimate rejections are exhausted input and the indefinite length octet; "
                                  "a valid non-minimal length form would be refused", model.loc(ASN1, r)))
-    run.floor("raise statements in the header routines", n_r, 4)
+    run.floor("raise statements in the header routines", n_r, 2)
     # the header routine names the tag class / universal number through an enum: the conversion must not reject a value a
     # conforming peer can send (all four classes; every universal number X.680 assigns, 0..36), unless the enum is open
     from .c05 import may_raise
